@@ -16,8 +16,10 @@ type OracleC19 struct {
 	prevTeam  string
 }
 
-func NewOracleC19() *OracleC19 { return &OracleC19{counters: newCounters(), prevSpecs: map[string]string{}} }
-func (o *OracleC19) ID() string  { return "C19" }
+func NewOracleC19() *OracleC19 {
+	return &OracleC19{counters: newCounters(), prevSpecs: map[string]string{}}
+}
+func (o *OracleC19) ID() string { return "C19" }
 
 func (o *OracleC19) v(h int64, oracle, site, class, f string, a ...any) *Violation {
 	return &Violation{Property: "C19", Oracle: oracle, Site: site, Class: class, Height: h, Msg: fmt.Sprintf(f, a...)}
@@ -197,7 +199,11 @@ func (o *OracleC19) forkCheck(c *Chain, b *BlockCtx, with *View) []*Violation {
 		why, isExempt := exempt[string(a.Addr)]
 		_ = why
 		bad := func(what string, w, wo fmt.Stringer) {
-			out = append(out, o.v(b.H, "third-party", in.Msgs[0].K, "non-signer-"+what+"-reduced", "tx %d (%s by %s) reduces the %s of %s: %s with the tx, %s without it", f.TxIdx, intentKinds(in), signer, what, a.Addr, w, wo))
+			cls := "non-signer-" + what + "-reduced"
+			if what == "reward-credit" && reporterWithCommissionAboveOne(with) {
+				cls += ":commission-rate-outside-0-1"
+			}
+			out = append(out, o.v(b.H, "third-party", in.Msgs[0].K, cls, "tx %d (%s by %s) reduces the %s of %s: %s with the tx, %s without it", f.TxIdx, intentKinds(in), signer, what, a.Addr, w, wo))
 		}
 		if isExempt {
 			o.count("exempt_accounts(stated exceptions)")
